@@ -2,6 +2,8 @@
 //
 //   csvw  <mem|stream|streambom> <sep> <table>        public API: BitSerializer::SaveObject<CsvArchive>(std::vector<Row>)
 //   csvwi <mem|stream|streambom> <H|N> <sep> <table>   internal writer classes (src/csv/csv_writers.h): WriteValue* / NextLine per row
+//   csvh  <mem|stream> <sep> <prog>/<prog>/... <bytes>  the same with a request program per row (C03): the i-th row object asks
+//                                                  for the keys of the i-th program in that order; answer as csvr, '~!<hex>' = not loaded but the target was written
 //   csvr  <mem|stream> <sep> <keys> <bytes>            public API: BitSerializer::LoadObject<CsvArchive>(std::vector<Row>), each row
 //                                                      requests the listed keys in the listed order
 //   sepv  <sep>                                        the four root scope constructors with this separator
@@ -82,6 +84,60 @@ static std::string guarded(F f) {
 	catch (const std::out_of_range&) { return "EXC:std::out_of_range"; }
 	catch (const std::exception&) { return "EXC:std::exception"; }
 	catch (...) { return "EXC:unknown"; }
+}
+
+// ---- csvh: a request program per row (C03).  The i-th row object to be loaded runs the i-th program: each key is
+// requested through BitSerializer::Serialize(archive, key, std::string&) with the target preset to a sentinel, so that
+// "not loaded" can be told from "loaded as something" and a not-loaded target that was written to shows up ("~!<hex>")
+static std::vector<Fields> g_progs;
+static size_t g_next_row = 0;
+static const std::string kSentinel("\x01unset\x02", 7);
+
+struct HRow {
+	Fields vals;
+	std::vector<char> found;
+
+	template <class TArchive>
+	void Serialize(TArchive& archive) {
+		if constexpr (TArchive::IsLoading()) {
+			static const Fields none;
+			const Fields& prog = g_next_row < g_progs.size() ? g_progs[g_next_row] : none;
+			++g_next_row;
+			vals.assign(prog.size(), kSentinel);
+			found.assign(prog.size(), 0);
+			for (size_t i = 0; i < prog.size(); ++i)
+				found[i] = BitSerializer::Serialize(archive, prog[i], vals[i]) ? 1 : 0;
+		}
+	}
+};
+
+static std::string op_csvh(const std::string& mode, char sep, const std::vector<Fields>& progs, const std::string& bytes) {
+	g_progs = progs;
+	g_next_row = 0;
+	SerializationOptions options;
+	options.valuesSeparator = sep;
+	return guarded([&]() -> std::string {
+		std::vector<HRow> rows;
+		if (mode == "mem") {
+			BitSerializer::LoadObject<CsvArchive>(rows, bytes, options);
+		} else {
+			std::istringstream is(bytes, std::ios::in | std::ios::binary);
+			BitSerializer::LoadObject<CsvArchive>(rows, is, options);
+		}
+		if (rows.empty()) return "OK .";
+		std::string r = "OK ";
+		for (size_t i = 0; i < rows.size(); ++i) {
+			if (i) r.push_back('/');
+			if (rows[i].vals.empty()) { r.push_back('_'); continue; }
+			for (size_t j = 0; j < rows[i].vals.size(); ++j) {
+				if (j) r.push_back(',');
+				if (rows[i].found[j]) r += fmt_field(rows[i].vals[j]);
+				else if (rows[i].vals[j] == kSentinel) r += "~";
+				else r += "~!" + fmt_field(rows[i].vals[j]);
+			}
+		}
+		return r;
+	});
 }
 
 static char parse_sep(const std::string& s) { return static_cast<char>(std::strtoul(s.c_str(), nullptr, 16)); }
@@ -191,6 +247,11 @@ int main() {
 		if (op == "csvw" && t.size() == 4) ans = op_csvw(t[1], parse_sep(t[2]), parse_table(t[3]));
 		else if (op == "csvwi" && t.size() == 5) ans = op_csvwi(t[1], t[2] == "H", parse_sep(t[3]), parse_table(t[4]));
 		else if (op == "csvr" && t.size() == 5) ans = op_csvr(t[1], parse_sep(t[2]), parse_fields(t[3]), vh::parse_hex(t[4]));
+		else if (op == "csvh" && t.size() == 5) {
+			std::vector<Fields> progs;
+			for (auto& p : vh::split(t[3], '/')) progs.push_back(parse_fields(p));
+			ans = op_csvh(t[1], parse_sep(t[2]), progs, vh::parse_hex(t[4]));
+		}
 		else if (op == "sepv" && t.size() == 2) ans = op_sepv(parse_sep(t[1]));
 		std::cout << ans << "\n" << std::flush;
 	}
